@@ -28,7 +28,7 @@ PROPERTY = "C13"
 LEVEL = "exploration"
 
 MANIFEST = {
-    "level_text": "Randomised and dense search: Hypothesis-drawn query epochs for every (planet, finder, variant) found by introspection, each returned instant located on the library's own VSOP87 positions by an independent event search; generated 60-step sweeps and a dense tiling of the era (every 4th 400-step segment in the quick tier, all of them in the thorough tier) for the ordering clauses. Finds violations; does not prove absence.",
+    "level_text": "Randomised and dense search: Hypothesis-drawn query epochs for every (planet, finder, variant) found by introspection, each returned instant located on the library's own VSOP87 positions by an independent event search; generated 60-step sweeps and a dense tiling of the era (every 4th 400-step segment in the quick tier, all of them in the thorough tier) for the ordering clauses. Finds violations; does not prove absence. Every apsis and node of the era and one-day steps across the calendar seams are enumerated.",
     "level_note": "Trusts the event search of vf/oracles/events_planet.py (bisection / golden section on geometric_heliocentric_position of the planet and the Earth with light time; self-tested on analytic functions and three almanac dates) and the integer calendar for the era limits. The position theory itself is the reference, as the property says. Gap windows are calibrated on the unchanged tree (DESIGN section 5).",
     "technique": "property-based testing (Hypothesis) + dense sweeps, oracle = event search on the library's own VSOP87 positions",
 }
@@ -42,7 +42,8 @@ RULE = ("Sites (planet, finder, variant) are enumerated by introspection (56: 28
         "JDE before -2000 Jan 1.0 or after 4000 Jan 1.0 (1e-3 d .. 2700 / 6000 years outside). Non-trivial: "
         "query within 5 % of a period of a selection boundary, or |year - 2000| > 1500, or a sweep step / "
         "boundary probe, or an out-of-range query within 400 d of a limit; distinct = distinct case "
-        "(site, JDE, snap).")
+        "(site, JDE, snap)."
+        " all_events: for the 28 orbital variants (perihelion/aphelion, nodes) every event of the era is asked for, two queries per period with a seed-derived phase, no probes (quick: every 4th 250-event segment for Mercury, all segments for the other planets). seams: for the 28 closed-formula finders one-day steps over 400 days either side of the reform, of 1 January 1583, 1 BC/AD 1, 1600, 1700, 2000, -1000, AD 4 and of the era ends. In the event clause the returned Epoch is recycled through set() and the query repeated with an equal epoch.")
 ASSUMPTIONS = [
     "event tolerance 1 d (Mercury, Venus, Earth, Mars) / 2 d (Jupiter..Neptune) as the property states; the "
     "event is a sign change, in the demanded sense, of: wrapped lambda - lambda_sun (- 180 deg), d(elongation)/dt, "
